@@ -1,7 +1,7 @@
 CONSTANTS
   N = 2
   MaxMem = 1
-  MaxReq = 2
+  MaxReq = 1
   Family = "flat"
   FlagFamily = "all"
   WithBad = TRUE
